@@ -302,6 +302,7 @@ def run(ctx: Ctx, rep: Report) -> None:
     rep.adopt_rules(sub, "C05-R8", ["C10-R2"])
     rep.adopt_rules(sub, "C05-R9", ["C10-R3"])
     rep.adopt_rules(ctx.sub_run("c11", rep), "C05-R9", ["C11-R1", "C11-R2", "C11-R4"])
+    rep.adopt_rules(sub, "C05-R9", ["C10-R5"])  # the digest spliced in is keyed with the key localised for this engine (RFC 3414 A.2)
     # the caller's typed SET values: the application type constructors store every in-range value as given
     rep.adopt_rules(ctx.sub_run("c17", rep), "C05-R10", ["C17-R1"])
     # what the operations put into the request: one binding per requested position, in the caller's order (duplicates
@@ -310,7 +311,8 @@ def run(ctx: Ctx, rep: Report) -> None:
     got = rep.adopt_rules(sub4, "C05-R11", ["C04-R3", "C04-R1", "C04-R7"], containing="evaluated request")
     got += rep.adopt_rules(sub4, "C05-R11", ["C04-R3", "C04-R1", "C04-R7"], containing="is sent")
     got += rep.adopt_rules(sub4, "C05-R11", ["C04-R1"], containing="binding per requested OID")
-    got += rep.adopt_rules(sub4, "C05-R11", ["C04-R7"], containing="leaves the caller's OID lists")  # only present when violated: the next request built from the same lists differs from the one asked for
+    got += rep.adopt_rules(sub4, "C05-R11", ["C04-R7"], containing="leaves the caller's OID lists")
+    got += rep.adopt_rules(sub4, "C05-R11", ["C04-R9"])  # the pythonic wrapper hands the caller's OIDs to the raw operation one-to-one (duplicates included)  # only present when violated: the next request built from the same lists differs from the one asked for
     sub = ctx.sub_run("c18", rep)
     rep.adopt_rules(sub, "C05-R7", ["C18-R4"])
     # ... and a temporary override is undone completely (credentials AND the message-processing model), also when the block raises
